@@ -168,3 +168,13 @@ reg('C09', 'streams', 'rule_combine_when_inner')
 reg('C10', 'streams', 'rule_collector_sibling')
 reg('C14', 'streams', 'rule_collector_sibling')   # repeating map() on an unchanged tree gives the same sources / sourcesContent
 reg('C06', 'streams', 'rule_collector_sibling')
+reg('C06', 'streams', 'rule_alloc_dedup')         # a child name announced twice keeps one index in the composite
+reg('C09', 'streams', 'rule_alloc_dedup')
+reg('C11', 'streams', 'rule_alloc_dedup')         # names / sources lists carry each key once
+reg('C04', 'ropeinv', 'rule_prefix_sum')          # end columns of a child come from rope line lengths (get_generated_source_info)
+reg('C10', 'ropeinv', 'rule_prefix_sum')          # the cached replay streams rope(): same text, size and generated end
+reg('C11', 'ropeinv', 'rule_prefix_sum')          # segments before the end of source(): the end comes from rope offsets
+reg('C19', 'ropeinv', 'rule_prefix_sum', ('dev', 'release'))   # byte_slice_unchecked picks pieces and cuts them by these offsets
+reg('C06', 'streams', 'rule_prefix_direction')    # the column is advanced only where the recorded content equals the text
+reg('C17', 'bounds', 'rule_clamp_order', ('dev', 'release'))
+reg('C17', 'bounds', 'rule_slice_order', ('dev', 'release'))
